@@ -26,7 +26,7 @@ typedef struct mcx {
     int max_depth;                              /* 0 = unbounded (run to the fix-point) */
     /* results */
     unsigned long long states, transitions, disabled, revisits;
-    int depth_reached, fixpoint;
+    int depth_reached, fixpoint, capped;      /* capped: stopped by the state limit or the deadline (a stated max_depth is not a cap) */
     /* storage */
     unsigned char * keys, * snaps;
     uint32_t * parent;
@@ -131,7 +131,7 @@ static void mcx_run(mcx_t * m) {
     while (head < m->states) {
         int d = m->depth[head];
         if (m->max_depth && d >= m->max_depth) { m->fixpoint = 0; head++; continue; }
-        if (mc_deadline_hit()) { m->fixpoint = 0; break; }
+        if (mc_deadline_hit()) { m->fixpoint = 0; m->capped = 1; break; }
         mcx_render_trace(m, head, -1);
         mc_case_tag = "bfs";
         mc_case_s[0] = (const unsigned char *) mcx_tracebuf; mc_case_n[0] = strlen(mcx_tracebuf);
@@ -155,12 +155,12 @@ static void mcx_run(mcx_t * m) {
             mcx_intern(m, key, snap, head, op, d + 1, &isnew);
             if (!isnew) m->revisits++;
             else if (d + 1 > m->depth_reached) m->depth_reached = d + 1;
-            if (m->max_states && m->states >= m->max_states) { m->fixpoint = 0; goto out; }
+            if (m->max_states && m->states >= m->max_states) { m->fixpoint = 0; m->capped = 1; goto out; }
         }
         head++;
     }
 out:
-    if (!m->fixpoint) printf("CAP bfs stopped before the fix-point: states=%llu depth=%d\n", m->states, m->depth_reached);
+    if (m->capped) printf("CAP bfs stopped before the fix-point / depth bound: states=%llu depth=%d\n", m->states, m->depth_reached);
     free(key); free(key2); free(snap);
 }
 
